@@ -113,6 +113,15 @@ def run_histories(cfg, uni, hists, now_build):
                         continue
                     if tags:
                         st['accepted_other_property'] += 1
+                        if cfg.conservation:
+                            # whatever rule of another property the block breaks: the value it leaves behind is C02's own clause
+                            try:
+                                got = ledger.utxo_view(cs2.unspent_transaction_outs_by_hash[refmodel.enc.blockid(blk)])
+                                if total(got) > total(P.utxo) + refmodel.subsidy(P.height + 1):
+                                    out.append(('conservation', "accepting %s on %s raises the unspent total by %d, the subsidy is %d" % (
+                                        c.name, P.path, total(got) - total(P.utxo), refmodel.subsidy(P.height + 1)), hist, P.path, c.name))
+                            except Exception:
+                                pass
                         continue
                     # accepted and reference-valid: resulting state must match the reference ledger
                     try:
